@@ -1,5 +1,6 @@
 import CallbagModel.Insts
 import CallbagModel.Mon
+import Driver.ParDrv
 /-!
 # cbdrv — the compiled driver (imports model files only)
 
@@ -124,4 +125,5 @@ def main (args : List String) : IO UInt32 := do
     let st ← judgeLoop prop (← IO.getStdin) {}
     IO.println s!"SUMMARY \{\"scripts\": {st.scripts}, \"nested\": {st.nested}, \"max_depth\": {st.maxDepth}, \"events\": {st.events}, \"mismatches\": {st.mismatches}, \"model_drift\": {st.fullMismatches}, \"flagged\": {st.flagged}, \"nonconformant\": {st.nonconf}, \"panics\": {st.panics}}"
     return 0
-  | _ => IO.eprintln "usage: cbdrv gen|rand|judge ..."; return 2
+  | ["par"] => parLoop (← IO.getStdin); return 0
+  | _ => IO.eprintln "usage: cbdrv gen|rand|judge|par ..."; return 2
